@@ -341,12 +341,20 @@ Definition p_line : parser c09case := fun line =>
   | _ => None
   end.
 
+(* the documented requirements of the Sample type (the harness refuses to build other cases): one
+   non-negative weight per value; the Sorted flag only on ascending data *)
+Fixpoint asc (l : list Q) : bool :=
+  match l with x :: ((y :: _) as t) => Qle_bool x y && asc t | _ => true end.
+Definition sample_ok (sorted hasw : bool) (xs ws : list Q) : bool :=
+  (negb hasw || ((length ws =? length xs)%nat && forallb (Qle_bool 0) ws)) && (negb sorted || asc xs).
+
 Definition check_case (c : c09case) : list Z :=
   match c with
   | KStats sorted hasw xs ws o =>
-      if hasw && negb (length ws =? length xs)%nat then verdict V_MALFORMED 0 (-1) []
+      if negb (sample_ok sorted hasw xs ws) then verdict V_MALFORMED 0 (-1) []
       else check_stats sorted hasw xs ws o
   | KHist sorted hasw xs ws ops =>
+      if negb (sample_ok sorted hasw xs ws) then verdict V_MALFORMED 0 (-1) [] else
       let s0 := mkSample xs (if hasw then Some ws else None) sorted in
       match run_hist [s0] ops 0%Z T_HIST with
       | (code, tag, pos, diag) => verdict (if (code =? 3)%Z then V_MALFORMED else code) tag pos diag
